@@ -49,6 +49,9 @@ pub struct Unit {
     pub refcell_mut_unless: Vec<(String, String)>,
     pub refcell_fields: Vec<String>,
     pub copy_borrow: Vec<(String, String)>,
+    pub mono_vec: Vec<(String, String)>,
+    pub drop_derives: Vec<String>,
+    pub no_structural: Vec<String>,
     pub outline_contains: Vec<String>,
     pub ghost_fields: Vec<(String, String, String, String, String)>, // struct, feature, name, type, init
     pub ghost_args: Vec<(String, String, String)>, // feature, method, extra argument
@@ -178,6 +181,9 @@ pub fn parse_unit(text: &str) -> Unit {
             "ghost-arg" => { let v: Vec<&str> = rest.split_whitespace().collect(); u.ghost_args.push((v[0].into(), v[1].trim_start_matches("*.").into(), v[2..].join(" "))); }
             "outline-contains" => u.outline_contains.extend(rest.split_whitespace().map(|s| s.to_string())),
             "refcell-mut-unless" => { let mut it = rest.split_whitespace(); let feat = it.next().unwrap().to_string(); for f in it { u.refcell_mut_unless.push((feat.clone(), f.to_string())); } }
+            "no-structural" => u.no_structural.extend(rest.split_whitespace().map(|s| s.to_string())),
+            "drop-derive" => u.drop_derives.extend(rest.split_whitespace().map(|s| s.to_string())),
+            "mono-vec" => { let mut it = rest.split_whitespace(); let f = it.next().unwrap().to_string(); let p = it.next().unwrap().to_string(); u.mono_vec.push((f, p)); }
             "copy-borrow" => { let mut it = rest.split_whitespace(); let f = it.next().unwrap().to_string(); for v in it { u.copy_borrow.push((f.clone(), v.to_string())); } }
             "refcell-field" => u.refcell_fields.extend(rest.split_whitespace().map(|s| s.to_string())),
             "fn" => { cur_fn = Some(rest.trim().to_string()); section = None; u.fns.insert(rest.trim().to_string(), FnSpec::default()); }
